@@ -324,7 +324,9 @@ class MinGenSet():
 
         # Solve for increasing numbers of elements in the generating set
         # A smallest generating set can have more elements than there are numbers (e.g. numbers = [3], total = 10 needs {3, 7})
-        for k in range(self.lowerbound, max(self.lowerbound, len(self.initial_numbers)) + 2):
+        # (and partition constraints can force even more elements)
+        max_k = len(self.initial_numbers) + 1 + sum(len(constraint) for constraint in (self.partition_constraints or []))
+        for k in range(self.lowerbound, max(self.lowerbound, max_k) + 1):
             self._create_solver(k=k)
             self.solver.optimize()
 
